@@ -149,31 +149,31 @@ Print Assumptions C07_prep_render.
 (* PARTIAL (stage 6): every constructor of [expr] except casts, INCLUDING the middle operands of ?: around which
    prepareTernaryOpForAST inserts parentheses:  parse = createAst's ladder after prepareTernaryOpForAST.
    Premises: [wf e], [labels_ok e] (no restriction: C07_labels_ok_canon),
-   [mid_okP e]: a middle operand that gets no parentheses and is an assignment contains no '?' at all (the
-   invariant tracks "contains '?'" only per token list; such a '?' can only be inside brackets),
    [decl_like (renderP e) = false]: the  X ) ( name ) =  declaration heuristic of compileTerm does not occur in
    the token list createAst sees.
    Missing for the full language: casts (iscast is not modelled). *)
 Theorem C07_parse_render_stage6_partial :
   forall (cpp : bool) (e : expr),
-    frag5 e = true -> wf e = true -> labels_ok e = true -> mid_okP e = true ->
+    frag5 e = true -> wf e = true -> labels_ok e = true ->
     decl_like (renderP e) = false ->
     parse cpp (render e) = Some (tree_of e).
 Proof. exact parse_render_stage6. Qed.
 Print Assumptions C07_parse_render_stage6_partial.
 
 (* the premises are inhabited, with middle operands that need parentheses:
-   r = a ? b , c : d ? p < q : ( a ? 1 : 2 ) ,  x = b ? c ? 1 : 2 , 3 : y = 0 ? f ( a , b ) : 7 *)
+   r = a ? b , c : d ? p < q : ( a ? 1 : 2 ) ,  x = b ? c ? 1 : 2 , 3 : y = 0 ? f ( a , b ) : 7 ,
+   c ? a = ( b ? 1 : 2 ) : d   (a '?' inside brackets of an assignment in the middle) *)
 Example C07_stage6_premises :
   let e := canon
-    (EComma 0
+    (EComma 0 (EComma 0
        (EAsg 0 AEq (EId 0 14)
           (ECond 0 0 (EId 0 0) (EComma 0 (EId 0 1) (EId 0 2))
              (ECond 0 0 (EId 0 3) (EBin 0 BLt (EId 0 4) (EId 0 5)) (EPar 0 (ECond 0 0 (EId 0 0) (ENum 0 1) (ENum 0 2))))))
        (EAsg 0 AEq (EId 0 11)
           (ECond 0 0 (EId 0 1) (EComma 0 (ECond 0 0 (EId 0 2) (ENum 0 1) (ENum 0 2)) (ENum 0 3))
-             (EAsg 0 AEq (EId 0 12) (ECond 0 0 (ENum 0 0) (ECall 0 (EId 0 8) (EComma 0 (EId 0 0) (EId 0 1))) (ENum 0 7)))))) in
-  frag5 e = true /\ wf e = true /\ labels_ok e = true /\ mid_okP e = true /\ decl_like (renderP e) = false /\
+             (EAsg 0 AEq (EId 0 12) (ECond 0 0 (ENum 0 0) (ECall 0 (EId 0 8) (EComma 0 (EId 0 0) (EId 0 1))) (ENum 0 7))))))
+       (ECond 0 0 (EId 0 2) (EAsg 0 AEq (EId 0 0) (EPar 0 (ECond 0 0 (EId 0 1) (ENum 0 1) (ENum 0 2)))) (EId 0 3))) in
+  frag5 e = true /\ wf e = true /\ labels_ok e = true /\ decl_like (renderP e) = false /\
   plainmid e = false /\
   parse false (render e) = Some (tree_of e) /\ parse true (render e) = Some (tree_of e).
 Proof. vm_compute. repeat split; reflexivity. Qed.
